@@ -600,12 +600,88 @@ func checkC13(c *Check, p *Program) {
 			}
 		}
 		if after != nil {
+			checkBusyDecode(c, p, "C13.P3")
 			checkBusyWait(c, p, a, after)
 		}
 	}
 
 	// ---- P4 / P5
 	checkLockTypestate(c, p, "C13.P4", a)
+}
+
+// checkBusyDecode: RoutingBusy.WaitTime is the announced number of milliseconds
+// - the two-octet item after length and status, multiplied by time.Millisecond,
+// stored on every successful path of the decoder.
+func checkBusyDecode(c *Check, p *Program, rule string) {
+	un := p.Method("knx/knxnet", "RoutingBusy", "Unpack")
+	waitF := p.Field("knx/knxnet", "RoutingBusy", "WaitTime")
+	if un == nil || waitF == nil {
+		c.Fail(rule, "knxnet.RoutingBusy.Unpack", "", "not found")
+		return
+	}
+	name := FuncName(un)
+	var us *ssa.Call
+	instrsOf(un, func(in ssa.Instruction) {
+		if call, ok := in.(*ssa.Call); ok && callIs(call, modPath+"/knx/util", "", "UnpackSome") && call.Common().Args[0] == ssa.Value(inputParam(un)) {
+			us = call
+		}
+	})
+	if us == nil {
+		c.Fail(rule, name+" decodes the announced wait time", p.Pos(un.Pos()), "no util.UnpackSome over the input")
+		return
+	}
+	items, opaque := ifaceArgs(us, true)
+	// item 2 (after the length octet and the status octet) is a two-octet local
+	var cell *ssa.Alloc
+	okItems := !opaque && len(items) >= 3
+	if okItems {
+		w := int64(0)
+		for i := 0; i < 2; i++ {
+			if mi, isMI := items[i].(*ssa.MakeInterface); isMI {
+				if pt, isP := mi.X.Type().(*types.Pointer); isP {
+					w += primWidth(pt.Elem())
+				}
+			}
+		}
+		mi, isMI := items[2].(*ssa.MakeInterface)
+		if isMI {
+			cell, _ = stripPtrConv(mi.X).(*ssa.Alloc)
+		}
+		okItems = w == 2 && cell != nil && primWidth(cell.Type().(*types.Pointer).Elem()) == 2
+	}
+	c.Decide(okItems, rule, name+" wait time is the two octets behind length and status", p.InstrPos(us), "third item, 16 bits, at offset 2", "the wait time is not decoded from octets 2..3 of the indication")
+	if cell == nil {
+		return
+	}
+	// WaitTime = Duration(cell) * Millisecond
+	isSet := func(in ssa.Instruction) bool {
+		st, ok := in.(*ssa.Store)
+		if !ok || fieldOfAddr(st.Addr) != waitF {
+			return false
+		}
+		bo, ok := st.Val.(*ssa.BinOp)
+		if !ok || bo.Op != token.MUL {
+			return false
+		}
+		for _, pr := range [][2]ssa.Value{{bo.X, bo.Y}, {bo.Y, bo.X}} {
+			k, isK := constInt(pr[1])
+			u, isU := stripAllConv(pr[0]).(*ssa.UnOp)
+			if isK && k == 1000000 && isU && u.Op == token.MUL && u.X == ssa.Value(cell) {
+				return true
+			}
+		}
+		return false
+	}
+	n := 0
+	for _, r := range returnsOf(un) {
+		if len(r.Results) < 2 || !p.returnMayBeNil(r, 1) {
+			continue
+		}
+		n++
+		mn, mx, okP := pathCountTo(us.Block(), r.Block(), isSet)
+		c.Decide(okP && mn == 1 && mx == 1, rule, name+" stores the announced milliseconds on success", p.InstrPos(r), "WaitTime = Duration(octets 2..3) * time.Millisecond on every path to this return", fmt.Sprintf("paths to this successful return set WaitTime = announced value * 1 ms %d..%d times: the client backs off for another time than announced (or not at all)", mn, mx))
+	}
+	c.Floor(rule, "successful returns of "+name, n, 1)
 }
 
 // checkBusyWait: w = min(msg.WaitTime + nonneg, 50ms)
